@@ -261,3 +261,13 @@ func (this *DatasetManager) VerifDatasets() []*Dataset {
 	}
 	return r
 }
+
+// VerifDropClients forgets the cached clients for a peer (the next call has to dial).
+func (this *Dataset) VerifDropClients(nodeId uint64) {
+	this.searchClientsMu.Lock()
+	delete(this.searchClients, nodeId)
+	this.searchClientsMu.Unlock()
+	this.dataManagerClientsMu.Lock()
+	delete(this.dataManagerClients, nodeId)
+	this.dataManagerClientsMu.Unlock()
+}
